@@ -1313,6 +1313,160 @@ Proof.
   vm_compute. repeat split; try exact I. constructor; [|constructor]. cbn. repeat split; exact I.
 Qed.
 
+(* ------------------------------------------------------------------ sets: EVERY mutation script *)
+(* the slot-storage invariant of a set during a cycle, against its pre-tick elements *)
+Definition set_inv (el0 : list Z) (n : node) : Prop :=
+  match n with
+  | NSet _ _ el ad rm =>
+      sorted el /\ sorted ad /\ sorted rm /\
+      (forall k, mem k ad = true -> mem k el0 = false) /\
+      (forall k, mem k rm = true -> mem k el0 = true) /\
+      (forall k, mem k el = (mem k el0 && negb (mem k rm)) || mem k ad)
+  | _ => False
+  end.
+
+Lemma set_inv_add el0 k n : sorted el0 -> set_inv el0 n -> set_inv el0 (set_add k n).
+Proof.
+  destruct n as [| |m v el ad rm| |]; try contradiction.
+  intros Hs0 (Hel & Had & Hrm & Hout & Hin & Heq). unfold set_add.
+  destruct (mem k el) eqn:Ekel; [repeat split; assumption|].
+  destruct (mem k rm) eqn:Ekrm; cbn [set_inv].
+  - repeat split; try assumption; try (apply sorted_ins; assumption); try (apply sorted_del; assumption).
+    + intros j Hj. rewrite mem_del in Hj by exact Hrm. apply andb_true_iff in Hj. apply Hin, Hj.
+    + intros j. rewrite mem_ins, mem_del by exact Hrm. rewrite Heq.
+      destruct (j =? k) eqn:E; cbn [negb andb orb]; [|reflexivity].
+      apply Z.eqb_eq in E; subst j. rewrite (Hin k Ekrm). reflexivity.
+  - assert (Hk0 : mem k el0 = false).
+    { pose proof (Heq k) as H. rewrite Ekel, Ekrm in H. cbn [negb] in H. rewrite andb_true_r in H.
+      symmetry in H. apply orb_false_iff in H. apply H. }
+    repeat split; try assumption; try (apply sorted_ins; assumption).
+    + intros j Hj. rewrite mem_ins in Hj. destruct (j =? k) eqn:E.
+      * apply Z.eqb_eq in E; subst j. exact Hk0.
+      * apply Hout, Hj.
+    + intros j. rewrite !mem_ins, Heq. destruct (j =? k) eqn:E; cbn [orb]; [|reflexivity].
+      rewrite orb_true_r. reflexivity.
+Qed.
+
+Lemma set_inv_remove el0 k n : sorted el0 -> set_inv el0 n -> set_inv el0 (set_remove k n).
+Proof.
+  destruct n as [| |m v el ad rm| |]; try contradiction.
+  intros Hs0 (Hel & Had & Hrm & Hout & Hin & Heq). unfold set_remove.
+  destruct (mem k el) eqn:Ekel; [|repeat split; assumption].
+  destruct (mem k ad) eqn:Ekad; cbn [set_inv].
+  - repeat split; try assumption; try (apply sorted_del; assumption).
+    + intros j Hj. rewrite mem_del in Hj by exact Had. apply andb_true_iff in Hj. apply Hout, Hj.
+    + intros j. rewrite !mem_del by assumption. rewrite Heq.
+      destruct (j =? k) eqn:E; cbn [negb andb]; [|reflexivity].
+      apply Z.eqb_eq in E; subst j. rewrite (Hout k Ekad). reflexivity.
+  - assert (Hk0 : mem k el0 = true /\ mem k rm = false).
+    { pose proof (Heq k) as H. rewrite Ekel, Ekad in H. rewrite orb_false_r in H. symmetry in H.
+      apply andb_true_iff in H. destruct H as [H1 H2]. apply negb_true_iff in H2. auto. }
+    destruct Hk0 as [Hk0 Hkrm].
+    repeat split; try assumption; try (apply sorted_del; assumption); try (apply sorted_ins; assumption).
+    + intros j Hj. rewrite mem_ins in Hj. destruct (j =? k) eqn:E.
+      * apply Z.eqb_eq in E; subst j. exact Hk0.
+      * apply Hin, Hj.
+    + intros j. rewrite mem_del by exact Hel. rewrite mem_ins, Heq.
+      destruct (j =? k) eqn:E; cbn [negb andb orb]; [|reflexivity].
+      apply Z.eqb_eq in E; subst j. rewrite Ekad, andb_false_r. reflexivity.
+Qed.
+
+Lemma set_inv_touch el0 n : set_inv el0 n -> set_inv el0 (set_touch n).
+Proof. destruct n; try contradiction. intros H; exact H. Qed.
+
+Lemma set_inv_fold_remove el0 l : forall n, sorted el0 -> set_inv el0 n ->
+  set_inv el0 (fold_left (fun s k => set_remove k s) l n).
+Proof. induction l as [|x r IH]; intros n Hs H; cbn [fold_left]; [exact H|]. apply IH; [exact Hs|]. apply set_inv_remove; assumption. Qed.
+
+Lemma set_inv_clear el0 n : sorted el0 -> set_inv el0 n -> set_inv el0 (set_clear n).
+Proof.
+  intros Hs H. destruct n as [| |m v el ad rm| |]; try contradiction. unfold set_clear.
+  apply set_inv_touch, set_inv_fold_remove; assumption.
+Qed.
+
+Definition set_script := list (Z * Z).    (* (code, arg): 3 add, 4 remove, 5 touch, otherwise clear *)
+Definition run_set (ops : set_script) (n : node) : node :=
+  fold_left (fun s o => leaf_op TSS (fst o) (snd o) s) ops n.
+
+Lemma set_inv_run el0 ops : forall n, sorted el0 -> set_inv el0 n -> set_inv el0 (run_set ops n).
+Proof.
+  induction ops as [|[c a] r IH]; intros n Hs H; cbn [run_set fold_left]; [exact H|].
+  apply IH; [exact Hs|]. cbn [leaf_op fst snd].
+  destruct (c =? 3); [apply set_inv_add; assumption|].
+  destruct (c =? 4); [apply set_inv_remove; assumption|].
+  destruct (c =? 5); [apply set_inv_touch; assumption|apply set_inv_clear; assumption].
+Qed.
+
+Definition is_set (n : node) : Prop := match n with NSet _ _ _ _ _ => True | _ => False end.
+Definition is_marked (n : node) : Prop := match n with NSet m v _ _ _ => m = true /\ v = true | _ => False end.
+
+Lemma set_remove_is_set k n : is_set n -> is_set (set_remove k n).
+Proof. destruct n as [| |m v el ad rm| |]; try contradiction. intros _. unfold set_remove. destruct (mem k el); [destruct (mem k ad)|]; exact I. Qed.
+
+Lemma fold_remove_is_set l : forall n, is_set n -> is_set (fold_left (fun s k => set_remove k s) l n).
+Proof. induction l as [|x r IH]; intros n H; cbn [fold_left]; [exact H|]. apply IH, set_remove_is_set, H. Qed.
+
+Lemma set_touch_marks n : is_set n -> is_marked (set_touch n).
+Proof. destruct n; try contradiction. intros _. cbn. auto. Qed.
+
+Lemma set_op_marks c a n : is_set n -> is_marked (leaf_op TSS c a n).
+Proof.
+  intros Hn. cbn [leaf_op].
+  destruct (c =? 3).
+  { destruct n as [| |m v el ad rm| |]; try contradiction. unfold set_add.
+    destruct (mem a el); [|destruct (mem a rm)]; cbn; auto. }
+  destruct (c =? 4).
+  { destruct n as [| |m v el ad rm| |]; try contradiction. unfold set_remove.
+    destruct (mem a el); [destruct (mem a ad)|]; cbn; auto. }
+  destruct (c =? 5); [apply set_touch_marks, Hn|].
+  destruct n as [| |m v el ad rm| |]; try contradiction. unfold set_clear.
+  apply set_touch_marks, fold_remove_is_set. exact I.
+Qed.
+
+Lemma marked_is_set n : is_marked n -> is_set n.
+Proof. destruct n; try contradiction. intros _; exact I. Qed.
+
+Lemma run_set_marks ops : forall n, is_set n -> ops <> [] -> is_marked (run_set ops n).
+Proof.
+  induction ops as [|[c a] r IH]; intros n Hn Hne; [congruence|]. cbn [run_set fold_left fst snd].
+  pose proof (set_op_marks c a n Hn) as Hm. destruct r as [|o r'].
+  - exact Hm.
+  - apply IH; [apply marked_is_set, Hm|discriminate].
+Qed.
+
+(* For sets the hypothesis [tick] is not an assumption on the script: EVERY non-empty sequence of
+   add / remove / touch / clear calls on a good state is a [tick], or is precisely finding B (an
+   empty tick on an already valid set). *)
+Theorem tss_every_script pre ops : good TSS pre -> ops <> [] ->
+  let live := run_set ops pre in
+  tick TSS pre live \/
+  (exists el, pre = NSet false true el [] [] /\ live = NSet true true el [] []).
+Proof.
+  destruct pre as [| |m0 v0 el0 ad0 rm0| |]; try contradiction.
+  intros (-> & Hel0 & -> & ->) Hne. cbn zeta.
+  assert (Hinv0 : set_inv el0 (NSet false v0 el0 [] [])).
+  { cbn. repeat split; try exact Hel0; try exact I; try discriminate.
+    intros k. cbn [mem negb]. rewrite andb_true_r, orb_false_r. reflexivity. }
+  pose proof (set_inv_run el0 ops _ Hel0 Hinv0) as Hinv.
+  pose proof (run_set_marks ops (NSet false v0 el0 [] []) I Hne) as Hmk.
+  destruct (run_set ops (NSet false v0 el0 [] [])) as [| |m v el ad rm| |]; try contradiction.
+  destruct Hmk as [-> ->]. destruct Hinv as (Hel & Had & Hrm & Hout & Hin & Heq).
+  assert (Hcanon : el = fold_left (fun s k => ins k s) ad (fold_left (fun s k => del k s) rm el0)).
+  { apply sorted_ext; [exact Hel|apply fold_ins_sorted, fold_del_sorted, Hel0|].
+    intros k. rewrite fold_ins_mem, fold_del_mem by exact Hel0. rewrite Heq.
+    destruct (mem k el0), (mem k rm), (mem k ad); reflexivity. }
+  destruct ad as [|a ad'] eqn:Ea; [destruct rm as [|r rm'] eqn:Er; [destruct v0 eqn:Ev|]|].
+  - right. exists el0. cbn [fold_left] in Hcanon. subst el. split; reflexivity.
+  - left. cbn [tick]. repeat split; try exact I; try apply Forall_nil; try exact Hcanon. right; right; reflexivity.
+  - left. rewrite <- Er in *. cbn [tick]. repeat split; try exact I; try apply Forall_nil; try assumption.
+    + apply Forall_forall. intros k Hk. apply Hin, mem_In, Hk.
+    + right; left. subst rm; discriminate.
+  - left. rewrite <- Ea in *. cbn [tick]. repeat split; try assumption.
+    + apply Forall_forall. intros k Hk. apply Hout, mem_In, Hk.
+    + apply Forall_forall. intros k Hk. apply Hin, mem_In, Hk.
+    + left. subst ad; discriminate.
+Qed.
+
 (* ------------------------------------------------------------------ the hypotheses are met *)
 Ltac tick_solve :=
   repeat first
